@@ -376,3 +376,7 @@ def check(ctx):
     ok = len(warm) == 1 and is_call(warm[0][2], f"{ETYPE}.is_warmup") is False and \
         warm[0][2][0] == "call" and warm[0][2][1][2] == "is_warmup"
     ctx.ob("C19.R3", az, "warm-up samples are selected with EpochType.is_warmup", ok)
+
+    # ---- shared mechanisms: the neighbour's rules run as obligations of this property
+    ctx.include("C08", "C19.R4", only=['C08.R5'])
+    ctx.rule("R4", "shared mechanisms, run as obligations of this property: the posterior part of the stored chains is selected by epoch (C08.R5).")
